@@ -45,27 +45,28 @@ Definition model_cross (vi vj p : pt) : bool :=
          j = i
      return c *)
 Section Loop.
-  Variable cross : pt -> pt -> pt -> bool.
+  Context {A : Type}.                       (* points: Q*Q, or Z*Z in the sweep *)
+  Variable cross : A -> A -> A -> bool.
 
-  Fixpoint pip_loop (p prev : pt) (vs : list pt) (c : bool) : bool :=
+  Fixpoint pip_loop (p prev : A) (vs : list A) (c : bool) : bool :=
     match vs with
     | [] => c
     | v :: vs' => pip_loop p v vs' (if cross v prev p then negb c else c)
     end.
 
   (* nr_verts = 0: the loop body never runs *)
-  Definition pip (poly : list pt) (p : pt) : bool :=
+  Definition pip (poly : list A) (p : A) : bool :=
     match poly with
     | [] => false
     | v0 :: _ => pip_loop p (last poly v0) poly false
     end.
 
   (* points_in_polygon / _points_in_poly: one result per point *)
-  Definition points_in_poly (poly : list pt) (pts : list pt) : list bool :=
+  Definition points_in_poly (poly : list A) (pts : list A) : list bool :=
     map (pip poly) pts.
 
   (* PolygonFilter.filter: f = points_in_poly(...); if inverted: invert(f) *)
-  Definition pf_filter (inverted : bool) (poly : list pt) (pts : list pt)
+  Definition pf_filter (inverted : bool) (poly : list A) (pts : list A)
     : list bool :=
     let f := points_in_poly poly pts in
     if inverted then map negb f else f.
@@ -93,13 +94,13 @@ Definition on_segment (a b p : pt) : bool :=
   && between (fst a) (fst b) (fst p) && between (snd a) (snd b) (snd p).
 
 (* the directed edges visited by the loop: (vertex, previous vertex) *)
-Fixpoint path_edges (prev : pt) (vs : list pt) : list edge :=
+Fixpoint path_edges {A} (prev : A) (vs : list A) : list (A * A) :=
   match vs with
   | [] => []
   | v :: vs' => (v, prev) :: path_edges v vs'
   end.
 
-Definition closed_edges (poly : list pt) : list edge :=
+Definition closed_edges {A} (poly : list A) : list (A * A) :=
   match poly with
   | [] => []
   | v0 :: _ => path_edges (last poly v0) poly
@@ -169,6 +170,67 @@ Definition grid_pts (k : nat) : list pt :=
 Definition half_pts (k : nat) : list pt :=
   flat_map (fun x => map (fun y => (x # 2, y # 2)) (zrange (-1) (2 * k + 1)))
            (zrange (-1) (2 * k + 1)).
+
+(* ---- the same evaluators over integer coordinates (fast sweep) ------------ *)
+Definition zpt := (Z * Z)%type.
+Definition inj (v : zpt) : pt := (inject_Z (fst v), inject_Z (snd v)).
+Definition zltb (a b : Z) : bool := negb (b <=? a)%Z.
+
+Definition zcross (vi vj p : zpt) : bool :=
+  let xi := fst vi in let yi := snd vi in
+  let xj := fst vj in let yj := snd vj in
+  let x := fst p in let y := snd p in
+  ((yi <=? y) && zltb y yj
+   && zltb ((x - xi) * (yj - yi)) ((xj - xi) * (y - yi)))%Z
+  || ((yj <=? y) && zltb y yi
+      && zltb ((xj - xi) * (y - yi)) ((x - xi) * (yj - yi)))%Z.
+
+Definition zcross_left (vi vj p : zpt) : bool :=
+  let xi := fst vi in let yi := snd vi in
+  let xj := fst vj in let yj := snd vj in
+  let x := fst p in let y := snd p in
+  ((yi <=? y) && zltb y yj
+   && zltb ((xj - xi) * (y - yi)) ((x - xi) * (yj - yi)))%Z
+  || ((yj <=? y) && zltb y yi
+      && zltb ((x - xi) * (yj - yi)) ((xj - xi) * (y - yi)))%Z.
+
+Definition zorient (a b p : zpt) : Z :=
+  ((fst b - fst a) * (snd p - snd a) - (snd b - snd a) * (fst p - fst a))%Z.
+
+Definition zbetween (a b x : Z) : bool :=
+  ((a <=? x) && (x <=? b) || (b <=? x) && (x <=? a))%Z.
+
+Definition zon_segment (a b p : zpt) : bool :=
+  (zorient a b p =? 0)%Z
+  && zbetween (fst a) (fst b) (fst p) && zbetween (snd a) (snd b) (snd p).
+
+Definition zon_boundary (poly : list zpt) (p : zpt) : bool :=
+  existsb (fun e => zon_segment (fst e) (snd e) p) (closed_edges poly).
+
+Definition zquadrant (p v : zpt) : Z :=
+  let dx := (fst v - fst p)%Z in let dy := (snd v - snd p)%Z in
+  if zltb 0 dx && (0 <=? dy)%Z then 0%Z
+  else if (dx <=? 0)%Z && zltb 0 dy then 1%Z
+  else if zltb dx 0 && (dy <=? 0)%Z then 2%Z
+  else 3%Z.
+
+Definition zquarter_turns (p : zpt) (e : zpt * zpt) : Z :=
+  let v := fst e in let prev := snd e in
+  let d := ((zquadrant p v - zquadrant p prev) mod 4)%Z in
+  if (d =? 0)%Z then 0%Z
+  else if (d =? 1)%Z then 1%Z
+  else if (d =? 3)%Z then (-1)%Z
+  else if zltb 0 (zorient prev v p) then 2%Z else (-2)%Z.
+
+Definition zwinding4 (poly : list zpt) (p : zpt) : Z :=
+  fold_right (fun e acc => (zquarter_turns p e + acc)%Z) 0%Z (closed_edges poly).
+
+(* grid with spacing 2: {0,2,..,2(k-1)}^2; query points: all integers of
+   [-1, 2k-1]^2, i.e. the half-integer grid of the unit grid scaled by 2 *)
+Definition zgrid (k : nat) : list zpt :=
+  flat_map (fun x => map (fun y => ((2 * x)%Z, (2 * y)%Z)) (zrange 0 k)) (zrange 0 k).
+Definition zquery (k : nat) : list zpt :=
+  flat_map (fun x => map (fun y => (x, y)) (zrange (-1) (2 * k + 1))) (zrange (-1) (2 * k + 1)).
 
 (* ---- interface for the correspondence check ------------------------------ *)
 Definition mkq (nd : Z * Z) : Q := fst nd # Z.to_pos (snd nd).
